@@ -1,6 +1,7 @@
 from __future__ import annotations
 
 import logging
+import math
 from typing import TYPE_CHECKING, Tuple, Type, Union
 
 from indi.device import events, values
@@ -117,6 +118,18 @@ class Number(Element):
         int,
         float,
     ) + Element.allowed_value_types
+
+    def check_value(self, value):
+        # only a finite number can be rendered, i.e. published or defined
+        # again: anything else is refused before it is stored
+        if value is not None:
+            try:
+                finite = math.isfinite(value)
+            except OverflowError:
+                finite = False
+            if not finite:
+                raise ValueError(f"Value of {self.name} is not a finite number")
+        return value
 
     def to_def_message(self):
         return self.def_message_class(
